@@ -493,6 +493,136 @@ func c07(c *core.Ctx) {
 		}
 	}
 
+	rFO := c.Rule("C07.fieldorder", "every call in package swamp that (re)orders one of the swamp's index fields - any beacon method that sorts the ordered slice, including the re-index helpers - orders it by the attribute and in the direction that field is built with (the field's position and type constant at the buildBeacon call); sortBeaconByType receives the order constant of the field's direction", 10)
+	{
+		// effect of every ordering method of the beacon: (getter, direction)
+		type effect struct {
+			getter string
+			desc   bool
+		}
+		effects := map[string]effect{}
+		for _, m := range p.FuncsIn(pkgBeacon) {
+			if m.Decl.Body == nil || m.Decl.Recv == nil {
+				continue
+			}
+			sorts := false
+			core.Calls(m.Decl.Body, false, func(call *ast.CallExpr) {
+				if core.IsCallTo(m.Info(), call, "sort.Slice", "sort.SliceStable", "sort.Sort", "sort.Stable", "slices.SortFunc", "slices.SortStableFunc") {
+					sorts = true
+				}
+			})
+			if !sorts {
+				continue
+			}
+			g, op, ok := comparatorOf(m)
+			if !ok || (op != token.LSS && op != token.GTR) {
+				rFO.Undecided(m.Key+":comparator", m.Decl.Pos(), "a beacon method sorts the ordered slice with a comparator this rule cannot classify")
+				continue
+			}
+			effects[m.Obj.Name()] = effect{g, op == token.GTR}
+		}
+		// fields: position and type at the buildBeacon call sites
+		type fieldOrder struct {
+			getter string // "" = any content getter (value index of a run-time type)
+			desc   bool
+		}
+		fields := map[*types.Var]fieldOrder{}
+		build := c.Fn(pkgSwamp + ".swamp.buildBeacon")
+		orderT := p.Named(pkgSwamp, "BeaconOrder")
+		descConst := p.Const(pkgSwamp, "IndexOrderDesc")
+		for _, f := range p.FuncsIn(pkgSwamp) {
+			if f.Decl.Body == nil {
+				continue
+			}
+			info := f.Info()
+			core.Calls(f.Decl.Body, true, func(call *ast.CallExpr) {
+				if !core.IsWsCallTo(info, call, build.Key) || len(call.Args) != 3 {
+					return
+				}
+				getter := ""
+				if k, ok := core.ObjOf(info, call.Args[2]).(*types.Const); ok {
+					getter = wantGetter(k.Name())
+				}
+				for i := 0; i < 2; i++ {
+					if fv := core.FieldOf(info, call.Args[i]); fv != nil {
+						fo := fieldOrder{getter, i == 1}
+						if old, seen := fields[fv]; seen && old != fo {
+							if old.desc != fo.desc {
+								rFO.Bad(f.Key+":buildBeacon("+fv.Name()+")", call.Pos(), "index field "+fv.Name()+" is built once as ascending and once as descending index")
+							}
+							fo.getter = "" // several types share the field
+						}
+						fields[fv] = fo
+					}
+				}
+			})
+		}
+		// inside buildBeacon: parameter i is sorted with the order constant of position i
+		{
+			info := build.Info()
+			sig := build.Obj.Type().(*types.Signature)
+			core.Calls(build.Decl.Body, true, func(call *ast.CallExpr) {
+				if tfn == nil || !core.IsWsCallTo(info, call, tfn.Key) || len(call.Args) != 3 {
+					return
+				}
+				for i := 0; i < 2 && i < sig.Params().Len(); i++ {
+					if core.ObjOf(info, call.Args[0]) == sig.Params().At(i) {
+						k, _ := core.ObjOf(info, call.Args[2]).(*types.Const)
+						rFO.Check(k != nil && (k == descConst) == (i == 1), build.Key+":param"+string(rune('0'+i))+":order", call.Pos(), "position and order constant agree", "buildBeacon sorts its ascending/descending parameter with the other order constant")
+					}
+				}
+			})
+		}
+		_ = orderT
+		want := func(fv *types.Var) string {
+			fo := fields[fv]
+			d := "ascending"
+			if fo.desc {
+				d = "descending"
+			}
+			if fo.getter == "" {
+				return d + " by the content value"
+			}
+			return d + " by " + fo.getter
+		}
+		for _, f := range p.FuncsIn(pkgSwamp) {
+			if f.Decl.Body == nil {
+				continue
+			}
+			info := f.Info()
+			core.Calls(f.Decl.Body, true, func(call *ast.CallExpr) {
+				// direct ordering method on an index field
+				if fo := core.Callee(info, call); fo != nil && fo.Pkg() != nil && core.Short(fo.Pkg().Path()) == pkgBeacon {
+					if e, isOrd := effects[fo.Name()]; isOrd {
+						fv := core.FieldOf(info, core.RecvExpr(call))
+						fod, known := fields[fv]
+						if fv == nil || !known {
+							return // parameter or local beacon (the table function, temporary beacons)
+						}
+						c.Touch(f)
+						ok := e.desc == fod.desc && (fod.getter == e.getter || (fod.getter == "" && strings.HasPrefix(e.getter, "GetContent")))
+						got := "ascending"
+						if e.desc {
+							got = "descending"
+						}
+						rFO.Check(ok, f.Key+":"+fv.Name()+"."+fo.Name(), call.Pos(), want(fv), "index field "+fv.Name()+" is built "+want(fv)+" but "+fo.Name()+" orders it "+got+" by "+e.getter+": reads through this index return a wrongly ordered page after this call")
+					}
+				}
+				// through the shared table with an explicit order constant
+				if tfn != nil && core.IsWsCallTo(info, call, tfn.Key) && len(call.Args) == 3 {
+					if fv := core.FieldOf(info, call.Args[0]); fv != nil {
+						if fod, known := fields[fv]; known {
+							c.Touch(f)
+							k, _ := core.ObjOf(info, call.Args[2]).(*types.Const)
+							rFO.Check(k != nil && (k == descConst) == fod.desc, f.Key+":"+fv.Name()+":"+tfn.Obj.Name(), call.Pos(), want(fv), "index field "+fv.Name()+" is built "+want(fv)+" but is re-sorted with the other order constant")
+						}
+					}
+				}
+			})
+		}
+		rFO.Check(len(fields) >= 10, pkgSwamp+":index-fields", build.Decl.Pos(), "index fields bound at buildBeacon call sites", "fewer than 10 index fields could be bound to a type and direction")
+	}
+
 	rE := c.Rule("C07.enum", "every index type constant has an entry (or the key default) in the type->sorter table used by the index build", 14)
 	{
 		btT := p.Named(pkgSwamp, "BeaconType")
